@@ -95,4 +95,10 @@ def connResult (codes : List Nat) (result : String) (resultCode : Nat) : List Vi
    | some c => if c ≠ 0 && result == "done" then ["C15 connection-result-hides-the-peers-GOAWAY-error"] else []
    | none => [])
 
+/-- C17: an I/O failure of the transport surfaces on the handles as it was: a handle that reports an I/O
+    error reports (one of) the kind(s) the transport raised.  `raised`: the kinds injected into the
+    transport so far (empty: none — then `BrokenPipe`, h2's own rendering of a closed connection, is fine). -/
+def ioSurfaced (raised : List String) (reported : String) : List Viol :=
+  if raised.isEmpty || raised.contains reported then [] else ["C17 handle-reports-an-io-error-the-transport-never-raised"]
+
 end H2V.Spec.Verdict
